@@ -536,11 +536,20 @@ def signature(info, codes):
 # ---------------------------------------------------------------------------------- driver (lpcheck.py adapted)
 def evaluate(cs):
     terms, infos = [], []
-    for c in cs:
+
+    def one(c):
         try:
-            t, inf = case_term(c)
+            return case_term(c)
         except Exception as e:  # implementation crashed in an unforeseen way: report, never hide
-            t, inf = None, {"harness_exception": "%s: %s" % (type(e).__name__, e)}
+            return None, {"harness_exception": "%s: %s" % (type(e).__name__, e)}
+    try:
+        import cobra  # noqa: F401  (once in the parent; the forked children share it)
+        import cobra.flux_analysis  # noqa: F401
+    except Exception:  # noqa
+        pass
+    for kind, val in K.map_isolated(one, cs):     # GLPK may abort the process (bflib/sgf.c): survive and count
+        t, inf = val if kind == "ok" else (None, {"skipped": True, "aborted": val,
+                                                  "stats": {"verdict": "process aborted by the solver library or timed out"}})
         infos.append(inf)
         terms.append(t)
     idx = [i for i, t in enumerate(terms) if t is not None]
